@@ -484,6 +484,10 @@ class RangeNode(SyntaxNode):
 
         if parser.schema and fieldname in parser.schema:
             field = parser.schema[fieldname]
+            if not field.indexed:
+                # Same policy as QueryParser.term_query()
+                msg = "Field %r is not indexed" % fieldname
+                return attach(query.error_query(msg), self)
             try:
                 if field.self_parsing():
                     q = field.parse_range(fieldname, start, end,
